@@ -49,7 +49,8 @@ def main():
             rc, o = sh(f"g++ -std=c++14 -msse4 -I{wt}/src {demo_cpp} {wt}/src/*.cpp -lz -llzma -lpthread -o /tmp/{prefix}_{pid}_demo 2>&1 | tail -3; /tmp/{prefix}_{pid}_demo; echo EXIT=$?", cwd=out, timeout=900)
         else:
             rc, o = sh(f"bash {demo_sh}; echo EXIT=$?", cwd=out, timeout=900)
-        return o.strip().splitlines()[-1] if o.strip() else "", o[-600:]
+        ex = [l for l in o.splitlines() if l.startswith("EXIT=")]
+        return (ex[-1] if ex else (o.strip().splitlines()[-1] if o.strip() else "")), o[-600:]
     with_change, log1 = run_demo()
     sh(f"git apply -R {patch}", cwd=wt)
     if demo_sh.exists():
